@@ -400,6 +400,12 @@ def cosimulate(model, n, seed, T=3, steps=30):
                     mism += 1
                     sample = {'kinds': kinds, 'schedule': acts, 'model': c.trace, 'real': r.trace}
                     break
+                if c.bad or r.bad:
+                    # a violation on both sides ends the comparison (what happens after it is undefined)
+                    if bool(c.bad) != bool(r.bad):
+                        mism += 1
+                        sample = {'kinds': kinds, 'schedule': acts, 'model_bad': c.bad, 'real_bad': r.bad}
+                    break
             if c.bad or r.bad:
                 viol += 1
         finally:
